@@ -191,7 +191,7 @@ var rvTransport *face.InternalTransport
 // Final is the observable final state of the tables.
 func Final() string {
 	var b strings.Builder
-	for _, n := range []string{"/", "/a", "/a/b", "/a/b/c", "/a/zz", "/zz"} {
+	for _, n := range []string{"/", "/a", "/a/b", "/a/b/c", "/a/zz", "/zz", "/c", "/c/zz"} {
 		fmt.Fprintf(&b, "%s=>{%s}/%s ", n, nhStr(table.FibStrategyTable.FindNextHopsEnc(nm(n))), LookupStrategy(n).Run(func() {}))
 	}
 	b.WriteString("| " + ListFib().Run(func() {}) + " | " + ListRib().Run(func() {}))
@@ -262,6 +262,40 @@ func All(thorough bool) []Scenario {
 	}
 	for _, t := range triples {
 		out = append(out, Scenario{Name: t[0] + "||" + t[1] + "||" + t[2], Init: init, Threads: [][]Op{progs[t[0]], progs[t[1]], progs[t[2]]}})
+	}
+	// Second family, started from a state with leftovers of earlier removals: /a was registered and
+	// unregistered while /a/b exists below it (the RIB keeps a route-less /a node, the FIB has pruned
+	// its /a entry), and /c holds a single next hop (its removal prunes the entry). The programs are
+	// the operations whose corner cases live there: repeated unregistration, removal of the last
+	// next hop from two sides, re-creation while a removal is in flight.
+	initB := []Op{RibAdd("/a", 1, 0, 1, CI), RibAdd("/a/b", 2, 0, 2, CI), RibRemove("/a", 1, 0), FibInsert("/c", 1, 1), FibInsert("/c", 2, 1)}
+	progsB := map[string][]Op{
+		"N1": {RibRemove("/a", 1, 0)},
+		"N2": {RibAdd("/a", 2, 0, 4, CI)},
+		"N3": {RibRemove("/a/b", 2, 0)},
+		"N4": {RibRemove("/a/b", 2, 0), RibAdd("/a/b", 1, 0, 3, 0)},
+		"N5": {FibRemove("/c", 1), FibRemove("/c", 2)},
+		"N6": {FibRemove("/c", 2), FibRemove("/c", 1)},
+		"N7": {FibInsert("/c", 2, 6)},
+		"NF": {FaceDown(2)},
+		"NL": {Lookup("/a/b"), Lookup("/c")},
+	}
+	keysB := []string{}
+	for k := range progsB {
+		keysB = append(keysB, k)
+	}
+	sort.Strings(keysB)
+	for i, a := range keysB {
+		for _, b := range keysB[i+1:] {
+			out = append(out, Scenario{Name: "B:" + a + "||" + b, Init: initB, Threads: [][]Op{progsB[a], progsB[b]}})
+		}
+	}
+	triplesB := [][3]string{{"N5", "N6", "NL"}, {"N1", "N2", "NF"}, {"N3", "N4", "NL"}}
+	if thorough {
+		triplesB = append(triplesB, [3]string{"N5", "N6", "N7"}, [3]string{"N1", "N3", "NF"}, [3]string{"N2", "N4", "NL"})
+	}
+	for _, t := range triplesB {
+		out = append(out, Scenario{Name: "B:" + t[0] + "||" + t[1] + "||" + t[2], Init: initB, Threads: [][]Op{progsB[t[0]], progsB[t[1]], progsB[t[2]]}})
 	}
 	return out
 }
